@@ -27,7 +27,7 @@ pub fn run(tier: Tier) -> i32 {
     let ctx = Ctx::new("C11", "exploration", tier);
     ctx.set_rule("E3: every payload of the stated spaces (size-bounded LZMA programs of the C01 automaton scope up to depth d; LZMA2 chunk sequences up to depth 2) x trailer {none, 00, FF, 00x6, a second valid payload} x reader {slice, BufReader capacity 1..8 and 8192 over a source, byte-at-a-time source, cut source}: Ok, exact output, and the reader's logical position is exactly the end of the payload (the trailer is neither read nor required). Converse: marker-terminated .lzma and .xz files with any non-empty trailer => Err. distinct_nontrivial = cases with a non-empty trailer.");
     let seed = ctx.seed;
-    let trailers = |second: &[u8]| -> Vec<(&'static str, Vec<u8>)> { vec![("none", vec![]), ("00", vec![0]), ("ff", vec![0xFF]), ("00x6", vec![0; 6]), ("second-payload", second.to_vec())] };
+    let trailers = |second: &[u8]| -> Vec<(&'static str, Vec<u8>)> { vec![("none", vec![]), ("00", vec![0]), ("ff", vec![0xFF]), ("00x6", vec![0; 6]), ("00x64", vec![0; 64]), ("second-payload", second.to_vec())] };
 
     // ------------------------------------------------------------ LZMA, size-bounded
     {
@@ -53,6 +53,11 @@ pub fn run(tier: Tier) -> i32 {
                     big.push(Sym::M(1 + (k * 17) % 190, 273 - (k % 9)));
                 }
                 edge.push(big);
+            }
+            // payloads of more than 4 KiB and more than 8 KiB of INPUT (incompressible literals): the end of the payload lies in a
+            // later refill of an 8 KiB BufReader, or deep inside one large slice
+            for nlit in [5000u32, 9000, 20000] {
+                edge.push((0..nlit).map(|i| Sym::L((i.wrapping_mul(2654435761) >> 13) as u8)).collect());
             }
             let nedge = edge.len() as u64;
             par_for((total + nedge) * 2, |i| {
@@ -130,7 +135,7 @@ pub fn run(tier: Tier) -> i32 {
                     ctx.sample(json!({"scope": name, "program": prog_str(&prog), "payload_len": e.payload.len()}));
                 }
             });
-            ctx.scope_done(&name, cases.load(Ordering::Relaxed), t0, "3 header kinds x 5 trailers x reader kinds; size + end marker under every reader kind");
+            ctx.scope_done(&name, cases.load(Ordering::Relaxed), t0, "3 header kinds x 6 trailers x reader kinds; size + end marker under every reader kind");
         }
     }
     // ------------------------------------------------------------ LZMA2
